@@ -70,6 +70,37 @@ def extract(mod, rep=None, lookups=True, stubcmp=False):
                                   'token_classes': sorted(tc), 'unproven_memory_obligations_in_steps': unproven}
 
 
+API_FIRST = [('binson_parser_next', False), ('binson_parser_go_into_object', False), ('binson_parser_go_into_array', False),
+             ('binson_parser_leave_object', False), ('binson_parser_leave_array', False), ('binson_parser_get_raw', False),
+             ('binson_parser_field_with_length', True)]
+
+
+def extract_api(mod, table):
+    """first iteration of the token loop as each public navigation function reaches it (includes what the function does before
+    calling the loop); added to the table as pseudo modes 'api:<function>'"""
+    tc = stepm.token_classes()
+    items = []
+    for (api, lk) in API_FIRST:
+        need(api in mod.functions, 'C08: %s not found' % api)
+        for (tokname, flags, dz, lookup) in sorted(table, key=repr):
+            if lookup != lk:
+                continue
+            items.append((api, {'tokname': tokname, 'tok': tc[tokname], 'flags': flags, 'dz': dz, 'lookup': lk, 'stubcmp': False}))
+    n = reached = 0
+    for r in stepm.run_api_keys(mod, items):
+        K = r['K']
+        n += 1
+        if r['outcomes']:
+            reached += 1
+            table[(K['tokname'], K['flags'], K['dz'], K['lookup'])]['api:' + r['api'].replace('binson_parser_', '')] = r['outcomes']
+    need(reached >= 100, 'C08: the token loop was reached through the public functions in only %d states' % reached)
+    return {'api_first_iteration_evaluations': n, 'reaching_the_loop': reached}
+
+
+def mname(m):
+    return m if isinstance(m, str) else 'scan mode 0x%02x' % m
+
+
 def classify(o):
     if o['err'] is None:
         return '?'
@@ -102,6 +133,7 @@ def run(rep, tier):
             lib, raws = sc.lib_ir(tag, defs=defs, target=target)
             mod = irload.load(lib)
             table, modes, stats = extract(mod)
+            stats.update(extract_api(mod, table))
             rep.coverage.setdefault('extraction', {})[tag] = dict(stats, scan_modes=modes, loop_head_states=len(table))
             need(len(table) >= 100, 'C08: only %d loop-head states evaluated' % len(table))
             counts = {'E': 0, 'C': 0, 'N': 0, '?': 0}
@@ -113,7 +145,7 @@ def run(rep, tier):
                     for (c, o) in lst:
                         counts[c] += 1
                         if c == '?':
-                            raise AnalysisBroken('C08: error flag after an iteration is not decided (%s, mode 0x%02x)' % (kname(K), m))
+                            raise AnalysisBroken('C08: error flag after an iteration is not decided (%s, %s)' % (kname(K), mname(m)))
                 bad_err = []
                 bad_state = []
                 for m1, l1 in cls.items():
@@ -125,7 +157,7 @@ def run(rep, tier):
                                         pairs_err += 1
                                         if stepm.cofeasible(o1, o2):
                                             bad_err.append((m1, o1, m2, o2))
-                            elif c1 == 'C' and m1 < m2:
+                            elif c1 == 'C' and str(m1) < str(m2):
                                 for (c2, o2) in l2:
                                     if c2 == 'C':
                                         pairs_state += 1
@@ -134,17 +166,17 @@ def run(rep, tier):
                 ob = 'step:MODE-ERR:%s:0x%02x:%s:%s' % (kb[0], kb[1], 'd0' if kb[2] else 'd1', 'lookup' if kb[3] else 'plain')
                 if bad_err:
                     m1, o1, m2, o2 = bad_err[0]
-                    rep.ob(False, ob, 'C08 MODE-ERR %s (%s): scan mode 0x%02x raises error %d on this token, scan mode 0x%02x consumes it without an error '
-                           '(a traversal in that mode accepts what the other rejects)' % (kname(K), tag, m1, o1['err'], m2),
+                    rep.ob(False, ob, 'C08 MODE-ERR %s (%s): %s raises error %d on this token, %s consumes it without an error '
+                           '(a traversal that way accepts what the other rejects)' % (kname(K), tag, mname(m1), o1['err'], mname(m2)),
                            'erroring path:\n  %s\nconsuming path:\n  %s' % ('\n  '.join(o1['path']), '\n  '.join(o2['path'])))
                 else:
-                    rep.ob(True, ob, '', sample={'loop_head_state': kname(K), 'modes': sorted(bymode),
-                                                 'outcomes': {('0x%02x' % m): sorted({classify(o) for o in outs}) for m, outs in bymode.items()}})
+                    rep.ob(True, ob, '', sample={'loop_head_state': kname(K), 'modes': sorted(map(str, bymode)),
+                                                 'outcomes': {mname(m): sorted({classify(o) for o in outs}) for m, outs in bymode.items()}})
                 ob = ob.replace('MODE-ERR', 'MODE-STATE')
                 if bad_state:
                     m1, o1, m2, o2 = bad_state[0]
-                    rep.ob(False, ob, 'C08 MODE-STATE %s (%s): scan modes 0x%02x and 0x%02x both consume this token but leave different validation state '
-                           'behind: %r vs %r' % (kname(K), tag, m1, m2, state_view(o1), state_view(o2)),
+                    rep.ob(False, ob, 'C08 MODE-STATE %s (%s): %s and %s both consume this token but leave different validation state '
+                           'behind: %r vs %r' % (kname(K), tag, mname(m1), mname(m2), state_view(o1), state_view(o2)),
                            'path A:\n  %s\npath B:\n  %s' % ('\n  '.join(o1['path']), '\n  '.join(o2['path'])))
                 else:
                     rep.ob(True, ob, '')
